@@ -183,3 +183,40 @@ Proof.
     f_equal. f_equal. rewrite Ees. cbn [hd]. rewrite Ees in Hc. now inversion Hc.
   - rewrite reconcile_is_advance. apply advance_nothing. cbn [e_cursor]. now apply consumed_pending.
 Qed.
+
+(* ------------------------------------------------------------------ failed merges, uncommitted merges *)
+(* a merge whose merge() failed (e.g. an I/O error while writing the merged segment) leaves no trace *)
+Theorem abort_merge_no_effect k s :
+  same_content s (abort_merge k s) /\ published (abort_merge k s) = published s.
+Proof. unfold same_content, abort_merge, published. cbn. repeat split. Qed.
+
+(* end_merge of a merge whose sources are UNCOMMITTED swaps entries in the uncommitted register only: the
+   committed register and meta.json (what searchers and a rollback see) are untouched *)
+Theorem end_merge_uncommitted k s r :
+  nth_error (w_merges s) k = Some r ->
+  r_epoch r = w_epoch s ->
+  contains_all (w_unc s) (r_srcs r) = true ->
+  let s' := end_merge k s in
+  w_com s' = w_com s /\ w_meta s' = w_meta s /\ published s' = published s /\ w_copstamp s' = w_copstamp s /\
+  w_unc s' = remove_segs (w_unc s) (r_srcs r) ++
+             match option_map (reconcile (w_queue s) (w_copstamp s)) (r_result r) with Some e => [e] | None => [] end.
+Proof.
+  intros Hk He Hu. unfold end_merge. rewrite Hk. apply N.eqb_eq in He. rewrite He. cbn [negb]. rewrite Hu.
+  unfold published. cbn. repeat split.
+Qed.
+
+(* hence whatever a later merge of committed segments publishes (end_merge saves meta.json from the committed
+   register) contains no document of a merged-but-uncommitted segment: the committed register is only ever
+   filled by commit, rollback and committed merges *)
+Theorem end_merge_committed_publishes_committed_only k s r :
+  nth_error (w_merges s) k = Some r ->
+  r_epoch r = w_epoch s ->
+  contains_all (w_unc s) (r_srcs r) = false -> contains_all (w_com s) (r_srcs r) = true ->
+  let s' := end_merge k s in
+  w_unc s' = w_unc s /\ w_meta s' = w_com s' /\
+  w_com s' = filter nonempty (remove_segs (w_com s) (r_srcs r) ++
+             match option_map (reconcile (w_queue s) (w_copstamp s)) (r_result r) with Some e => [e] | None => [] end).
+Proof.
+  intros Hk He Hu Hc. unfold end_merge. rewrite Hk. apply N.eqb_eq in He. rewrite He. cbn [negb]. rewrite Hu, Hc.
+  cbn. repeat split.
+Qed.
